@@ -40,6 +40,8 @@ def _is_cb_receiver(prog: Program, fi: FuncInfo, recv: ast.AST) -> Optional[str]
 
 def run(prog: Program, rep, tier: str) -> None:
     rep.explanation = EXPLANATION
+    from . import c11 as _c11
+    _c11.problem_bounds_copied(prog, rep)     # the box is the declared one for the lifetime of the problem
     rep.assumptions += ["the starting point satisfies the variable bounds (premise of the property)",
                         "ldexp by the same integer exponent is monotone and exact for x and for its bounds (C04.1)"]
     it = prog.cls(IT)
